@@ -12,14 +12,14 @@ WINDOWS = [0, 1, 2, 3]
 
 
 def grid_of(spec):
-    return H.reg(spec[1]) if spec[0] == "reg" else H.near(spec[1])
+    return H.grid_of(spec)
 
 
 def plan(tier):
     if tier == "quick":
         specs = [(("reg", 3), None, 3), (("reg", 4), None, 2), (("reg", 5), 3, 2),
-                 (("reg", 6), 2, 1), (("near", 3), 3, 2)]
-        Ls = [("reg", L) for L in (1, 2, 3, 4, 5, 6)] + [("near", 3)]
+                 (("reg", 6), 2, 1), (("near", 3), 3, 2), (("far", 3), None, 1)]
+        Ls = [("reg", L) for L in (1, 2, 3, 4, 5)] + [("near", 3), ("far", 3)]
     else:
         specs = [(("reg", 3), None, 3), (("reg", 4), None, 3), (("reg", 5), None, 2),
                  (("reg", 6), 3, 2), (("reg", 7), 2, 1), (("near", 3), None, 2),
@@ -27,7 +27,7 @@ def plan(tier):
         Ls = [("reg", L) for L in (1, 2, 3, 4, 5, 6, 7)] + [("near", 3), ("near", 4)]
     tasks, desc = [], []
     for spec, maxev, depth in specs:
-        n = len(H.disc_menu(grid_of(spec), max_events=maxev))
+        n = len(H.disc_menu(grid_of(spec), H.DISC_PATTERNS[:2], max_events=maxev))
         nsh = max(1, min(32, n // 2))
         for be in ("py", "pyx"):
             for s in range(nsh):
@@ -225,7 +225,7 @@ def run_task(task):
             if i % 11 == 0:
                 r.sample({"function": name, "x": args[0], "y": args[1], "mp": args[2]})
         return r
-    menu = H.disc_menu(G, max_events=task["maxev"])
+    menu = H.disc_menu(G, H.DISC_PATTERNS[:2], max_events=task["maxev"])
     names = [n for n, _, _ in menu]
     inits = [n for i, n in enumerate(names) if i % task["nshards"] == task["shard"]]
 
@@ -263,7 +263,7 @@ def replay(rec):
             if name == c["function"]:
                 check_function(r, spec, name, args, model)
         return r
-    menu = H.disc_menu(G, max_events=c.get("maxev"))
+    menu = H.disc_menu(G, H.DISC_PATTERNS[:2], max_events=c.get("maxev"))
     names = [n for n, _, _ in menu]
     by_name = {n: (a, m) for n, a, m in menu}
     found = H.replay_checks("disc", menu, c["history"], names[0], state_check)
